@@ -20,7 +20,7 @@ func TestElLargeSizes(t *testing.T) {
 	ev.Rule(name, "Uint32SizedArray, TCGEventData and a one-event CryptoAgileLog with a declared payload size in {65535, 65536, 65537, 65600, 131072, 200001} and the bytes actually present in {all, all-1, half, 1, 0, all+3}, through bytes.Reader, bytes.Buffer, a one-byte-at-a-time reader, iotest.HalfReader and iotest.DataErrReader; the grid is enumerated completely; oracle: complete input => decodes to exactly the payload and re-encodes to the same bytes; incomplete input => error (never silently completed or shortened); non-trivial = incomplete input or size > 65536; distinct = (structure, declared size, present class, reader)")
 	sizes := []int{65535, 65536, 65537, 65600, 131072, 200001}
 	type combo struct {
-		n                                int
+		n                               int
 		presentClass, structure, reader string
 	}
 	var combos []combo
